@@ -1,4 +1,5 @@
 import SimVerif.Gen.LEpoch
+import SimVerif.Gen.LEpochDb
 import SimVerif.Model.Tracker
 /-!
 # Tie: generated decision kernels = hand-written model (DESIGN.md 14.8)
@@ -24,5 +25,71 @@ theorem tie_epoch_baked (cfg : Tracker.Cfg) (st : Tracker.St) (t : Tracker.Trk) 
 
 /-- without an epoch database every track is always `Ready` -/
 theorem tie_epoch_baked_none (m s l : Nat) : epoch_baked none m s l = Status.ready := rfl
+
+/-! ### the epoch counters: `next_epoch`, `skip_epochs_for_scene`, `current_epoch_with_scene` as the source has them now
+(`Gen/LEpochDb.lean`: the `RwLock<HashMap<scene, epoch>>` read as an association list, `get_mut` borrows written through) -/
+
+theorem mapGet_mapSet {β : Type} (m : List (Nat × β)) (k k' : Nat) (v : β) :
+    mapGet (mapSet m k v) k' = if k' = k then some v else mapGet m k' := by
+  induction m with
+  | nil =>
+    by_cases hk : k' = k
+    · subst hk; simp [mapGet, mapSet]
+    · have : ¬ k = k' := fun h => hk h.symm
+      simp [mapGet, mapSet, hk, this]
+  | cons p rest ih =>
+    unfold mapSet
+    by_cases hp : p.1 = k
+    · by_cases hk : k' = k
+      · subst hk; simp [mapGet, hp]
+      · have : ¬ k = k' := fun h => hk h.symm
+        simp [mapGet, hp, hk, this]
+    · simp only [beq_iff_eq, hp, if_false]
+      by_cases hpk : p.1 = k'
+      · have : ¬ k' = k := fun h => hp (hpk.trans h)
+        simp [mapGet, hpk, this]
+      · have := ih
+        unfold mapGet at this ⊢
+        have hb : (p.1 == k') = false := by simpa using hpk
+        simp only [List.find?_cons, hb]
+        exact this
+
+/-- the epoch of a scene in the map (`0` when the scene is unknown), the model's `epochOf` -/
+def epochIn (m : List (Nat × Nat)) (s : Nat) : Nat := (mapGet m s).getD 0
+
+theorem epochIn_eq_epochOf (st : Tracker.St) (s : Nat) : epochIn st.epochs s = Tracker.epochOf st s := rfl
+
+theorem epochIn_mapSet (m : List (Nat × Nat)) (k k' v : Nat) :
+    epochIn (mapSet m k v) k' = if k' = k then v else epochIn m k' := by
+  unfold epochIn; rw [mapGet_mapSet]; split <;> rfl
+
+/-- **`next_epoch` adds one to the scene's epoch, returns it, and leaves every other scene's epoch as it was** -/
+theorem tie_epoch_next (m : List (Nat × Nat)) (s : Nat) :
+    ∃ m', epoch_next (some m) s = (some (epochIn m s + 1), some m') ∧
+      ∀ s', epochIn m' s' = if s' = s then epochIn m s + 1 else epochIn m s' := by
+  unfold epoch_next
+  cases h : mapGet m s with
+  | none => exact ⟨mapSet m s 1, by simp [epochIn, h], fun s' => by rw [epochIn_mapSet]; simp [epochIn, h]⟩
+  | some e => exact ⟨mapSet m s (e + 1), by simp [epochIn, h], fun s' => by rw [epochIn_mapSet]; simp [epochIn, h]⟩
+
+/-- **`skip_epochs_for_scene` adds `n` to the scene's epoch only** -/
+theorem tie_epoch_skip (m : List (Nat × Nat)) (s n : Nat) :
+    ∃ m', epoch_skip (some m) s n = ((), some m') ∧
+      ∀ s', epochIn m' s' = if s' = s then epochIn m s + n else epochIn m s' := by
+  unfold epoch_skip
+  cases h : mapGet m s with
+  | none => exact ⟨mapSet m s n, by simp [h], fun s' => by rw [epochIn_mapSet]; simp [epochIn, h]⟩
+  | some e => exact ⟨mapSet m s (e + n), by simp [h], fun s' => by rw [epochIn_mapSet]; simp [epochIn, h]⟩
+
+/-- **`current_epoch_with_scene` reads the scene's epoch (`0` for an unknown scene) and changes nothing** -/
+theorem tie_epoch_current (m : List (Nat × Nat)) (s : Nat) :
+    epoch_current (some m) s = (some (epochIn m s), some m) := by
+  unfold epoch_current
+  simp only []
+  cases h : mapGet m s <;> simp [epochIn, h]
+
+/-- without an epoch database the three calls do nothing -/
+theorem tie_epoch_none (s n : Nat) :
+    epoch_next none s = (none, none) ∧ epoch_skip none s n = ((), none) ∧ epoch_current none s = (none, none) := ⟨rfl, rfl, rfl⟩
 
 end SimVerif.Tie
